@@ -78,6 +78,16 @@ func runParse(c Case) (string, bool, []string) {
 	}
 	coq := fmt.Sprintf("UP %s %s %s %s %s %s %s %s", bstr.B(raw), urlcoq.Kind(kind), urlcoq.KV(urlcoq.EnvList(c.Env)),
 		urlcoq.NormalizeOracle(raw, u1, err1), out1, valid1, fmt1, out2)
+	// the common local synchronization case, abbreviated (the Coq constructor
+	// UL rebuilds exactly the UP term this branch would have printed)
+	if err1 == nil && kind == url.Kind_Synchronization && len(c.Env) == 0 && valid1 == "true" && out2 == "Same2" {
+		n := u1.Path
+		plain := &url.URL{Kind: kind, Protocol: url.Protocol_Local, Path: n}
+		if urlcoq.Result(u1, nil) == urlcoq.Result(plain, nil) && u1.Format("") == n &&
+			urlcoq.NormalizeOracle(raw, u1, nil) == urlcoq.LocalOracle(raw, n) {
+			coq = fmt.Sprintf("UL %s %s", bstr.B(raw), bstr.B(n))
+		}
+	}
 	return coq, nontrivial, tags
 }
 
@@ -151,9 +161,9 @@ func main() {
 	}
 
 	// Exhaustive small scope.
-	maxLen := 4
+	maxLen := 3
 	if cfg.Thorough() {
-		maxLen = 5
+		maxLen = 4
 	}
 	n := 0
 	enumerate := func(alphabet string, maxLen int, f func(string)) {
@@ -191,7 +201,7 @@ func main() {
 		add(Case{Op: "parse", Raw: bstr.J(s + ":tcp:h:1"), Kind: 1}, "exhaustive")
 		n++
 	})
-	enumerate("a@/:~-", maxLen-1, func(s string) {
+	enumerate("a@/:~-", maxLen, func(s string) {
 		add(Case{Op: "parse", Raw: bstr.J("docker://" + s), Kind: 0}, "exhaustive")
 		add(Case{Op: "parse", Raw: bstr.J("docker://" + s + ":tcp:h:1"), Kind: 1}, "exhaustive")
 		n += 2
@@ -221,13 +231,13 @@ func main() {
 			}
 		}
 	}
-	w.Extra["exhaustive_scope"] = fmt.Sprintf("[user@]host:[port:]path over users {none,a,-a} x hosts {a,-a,docker,tcp} x ports {none,empty,0,00,1,65535,65536} x 8 paths per kind; "+"synchronization: every non-empty string of length <= %d over {a @ : / 0 -}; forwarding: every string of length <= %d over {a @ : 0 -} followed by ':tcp:h:1'; Docker: 'docker://' + every string of length <= %d over {a @ / : ~ -} (both kinds) (%d cases)", maxLen, maxLen-1, maxLen-1, n)
+	w.Extra["exhaustive_scope"] = fmt.Sprintf("[user@]host:[port:]path over users {none,a,-a} x hosts {a,-a,docker,tcp} x ports {none,empty,0,00,1,65535,65536} x 8 paths per kind; "+"synchronization: every non-empty string of length <= %d over {a @ : / 0 -}; forwarding: every string of length <= %d over {a @ : 0 -} followed by ':tcp:h:1'; Docker: 'docker://' + every string of length <= %d over {a @ / : ~ -} (both kinds) (%d cases)", maxLen, maxLen-1, maxLen, n)
 
 	// Grammar-driven random strings and URL values.
 	g := urlcoq.NewGen(cfg.Rand)
 	nRandom, nValues := 1800, 500
 	if cfg.Thorough() {
-		nRandom, nValues = 60000, 10000
+		nRandom, nValues = 30000, 5000
 	}
 	for i := 0; i < nRandom; i++ {
 		raw, kind, env := g.RawURL()
